@@ -102,6 +102,32 @@ def class_set_attributes(cnode):
     return out
 
 
+def _lossy_key(k):
+    """Keys that do not separate distinct class objects: repr (customized
+    variants share it), __name__ / get_type_name (namespaces share them)."""
+    for x in ast.walk(k):
+        if isinstance(x, ast.Name) and x.id == 'repr':
+            return True
+        if isinstance(x, ast.Attribute) and x.attr in (
+                '__name__', '__qualname__', 'get_type_name'):
+            return True
+    return False
+
+
+def _reaching_is_set(fnode, use, expr, names, class_set_attrs):
+    """For a plain name: is the nearest assignment above the use (by line) a
+    set?  Names typed as sets only by a later re-assignment are lists here."""
+    if not isinstance(expr, ast.Name):
+        return True
+    prev = [a for a in walk_no_defs(fnode) if isinstance(a, ast.Assign) and
+            any(isinstance(t, ast.Name) and t.id == expr.id
+                for t in a.targets) and a.lineno < use.lineno]
+    if not prev:
+        return True
+    last = max(prev, key=lambda a: a.lineno)
+    return is_set_expr(last.value, names - {expr.id}, class_set_attrs)
+
+
 def unordered_iterations(fnode, names, class_set_attrs=()):
     """[(node, iter expr, sinks)] iterations over set-typed expressions not
     wrapped in sorted() whose body/element reaches an order-sensitive sink."""
@@ -119,8 +145,19 @@ def unordered_iterations(fnode, names, class_set_attrs=()):
                                                           'join',
                                                           'enumerate') and \
                 n.args:
-            if is_set_expr(n.args[0], names, class_set_attrs):
+            if is_set_expr(n.args[0], names, class_set_attrs) and \
+                    _reaching_is_set(fnode, n, n.args[0], names,
+                                     class_set_attrs):
                 out.append((n, n.args[0], [call_name(n) + '()']))
+            continue
+        if isinstance(n, ast.Call) and call_name(n) == 'sorted' and n.args \
+                and any(k.arg == 'key' and _lossy_key(k.value)
+                        for k in n.keywords) and \
+                is_set_expr(n.args[0], names, class_set_attrs) and \
+                _reaching_is_set(fnode, n, n.args[0], names, class_set_attrs):
+            # a keyed sort is stable: elements that tie under the key (two
+            # classes with one repr) keep the order the set iterates in
+            out.append((n, n.args[0], ['sorted(key=...) ties']))
             continue
         if it is None:
             continue
@@ -130,6 +167,9 @@ def unordered_iterations(fnode, names, class_set_attrs=()):
                 it.args:
             it = it.args[0]
         if not is_set_expr(it, names, class_set_attrs):
+            continue
+        if not _reaching_is_set(fnode, n if hasattr(n, 'lineno') else it, it,
+                                names, class_set_attrs):
             continue
         sinks = []
         if isinstance(n, ast.comprehension):
